@@ -123,8 +123,12 @@ def leaves_desc(tree):
     for lf in tree_lib.flatten(tree):
         a = np.asarray(lf)
         isf = np.issubdtype(a.dtype, np.floating)
-        out.append({"shape": [int(x) for x in a.shape], "dtype": str(a.dtype),
-                    "data": [jsonify.ford(v) if isf else int(v) for v in a.reshape(-1)]})
+        q = a.astype(np.float64).reshape(-1) * 4
+        out.append({"shape": [int(x) for x in a.shape], "dtype": str(a.dtype), "cls": "f" if isf else "i",
+                    "data": [jsonify.ford(v) if isf else int(v) for v in a.reshape(-1)],
+                    # numeric value in quarters (exact for the values generated here), for cross-dtype comparison
+                    "exact4": bool(np.all(q == np.rint(q)) and np.all(np.abs(q) < 2 ** 30)),
+                    "num4": [int(v) for v in np.rint(np.clip(q, -2 ** 30, 2 ** 30))]})
     return out
 
 
@@ -173,6 +177,21 @@ def eq_events(rng, evs, n):
             l5 = list(leaves)
             l5[k] = fb.reshape(b.shape)
             pairs.append(("one_ulp_changed", t1, jax.tree_util.tree_unflatten(td, l5)))
+        # leaves of different dtypes: equal iff the ELEMENTS are equal (1 vs 1.0), never after a lossy cast
+        import jax.numpy as jnp_
+
+        mixed = [("mixed_dtype_equal_values", jnp_.asarray([1, 2], "int32"), jnp_.asarray([1.0, 2.0], "float32")),
+                 ("mixed_dtype_fraction_lost_by_cast", jnp_.asarray([1, 2], "int32"), jnp_.asarray([1.5, 2.25], "float32")),
+                 ("mixed_dtype_wraparound_by_cast", jnp_.asarray([1, 2], "uint8"), jnp_.asarray([257, 258], "int32")),
+                 ("mixed_dtype_bool_vs_int", jnp_.asarray([True, False]), jnp_.asarray([2, 0], "int32")),
+                 ("mixed_scalar_int_vs_float", jnp_.asarray(3, "int32"), 3.75)]
+        mname, ma, mb = mixed[c % len(mixed)]
+        if kind == 0:
+            pairs.append((mname, {"x": ma, "y": (leaves[1], leaves[2])}, {"x": mb, "y": (leaves[1], leaves[2])}))
+        elif kind == 2:
+            pairs.append((mname, [ma, leaves[1]], [mb, leaves[1]]))
+        else:
+            pairs.append((mname, NT(a=ma, b=leaves[1]), NT(a=mb, b=leaves[1])))
         for why, x, y in pairs:
             for (p, q, sym) in ((x, y, False), (y, x, True)):
                 try:
